@@ -231,13 +231,13 @@ Definition tiny : tables := {|
     | 2 => Some (0, 3) | 3 => Some (0, 4) | 4 => Some (0, 1)  (* AR-PACKAGE: SHORT-NAME ELEMENTS AR-PACKAGES *)
     | 5 => Some (0, 5) | 6 => Some (0, 9)                     (* ELEMENTS (bag): SYSTEM* OLD-THING* *)
     | 7 => Some (0, 3) | 8 => Some (0, 7) | 9 => Some (0, 6)  (* SYSTEM: SHORT-NAME DESC FIBEX-ELEMENT-REF* *)
-    | 10 => Some (0, 8)                                       (* DESC (mixed): TT* *)
-    | 11 => Some (0, 3) | 12 => Some (0, 6)                   (* OLD-THING: SHORT-NAME(v1 only) FIBEX-ELEMENT-REF* *)
+    | 10 => Some (0, 8) | 11 => Some (0, 6) | 12 => Some (0, 5)  (* DESC (mixed): TT* FIBEX-ELEMENT-REF* SYSTEM* *)
+    | 13 => Some (0, 3) | 14 => Some (0, 6)                   (* OLD-THING: SHORT-NAME(v1 only) FIBEX-ELEMENT-REF* *)
     | _ => None end;
-  n_subelements := 13;
+  n_subelements := 15;
   T_attributes := fun i => match i with 0 => Some (0, 2, 1) | _ => None end;   (* DEST : enum, required *)
   n_attributes := 1;
-  T_version_info := fun i => if i =? 11 then Some 1 else Some 3;
+  T_version_info := fun i => if i =? 13 then Some 1 else Some 3;
   n_version_info := 200;
   T_datatypes := fun i => match i with
     | 0 => Some (mkD 0 1 0 0 0 MSequence 0 0)
@@ -247,9 +247,9 @@ Definition tiny : tables := {|
     | 4 => Some (mkD 5 7 0 0 0 MBag 0 0)
     | 5 => Some (mkD 7 10 0 0 0 MSequence 1 2)
     | 6 => Some (mkD 10 10 0 1 2 MCharacters 0 0)    (* reference: cdata 1, attribute DEST *)
-    | 7 => Some (mkD 10 11 0 0 4 MMixed 0 0)         (* DESC: cdata 3 *)
-    | 8 => Some (mkD 11 11 0 0 4 MCharacters 0 0)
-    | 9 => Some (mkD 11 13 0 0 0 MSequence 2 3)
+    | 7 => Some (mkD 10 13 0 0 4 MMixed 0 0)         (* DESC: cdata 3 *)
+    | 8 => Some (mkD 13 13 0 0 4 MCharacters 0 0)
+    | 9 => Some (mkD 13 15 0 0 0 MSequence 2 3)
     | _ => None end;
   n_datatypes := 10;
   T_ref_items := fun i => match i with 0 => Some 0 | 1 => Some 1 | 2 => Some 2 | _ => None end;
